@@ -202,8 +202,8 @@ class Env:
                 f.write(text)
 
     def run(self, argv, cwd=None, env=None, timeout=10.0, stdin=None, preload=False,
-            user=None, binary=None):
-        """Fresh CLI process transport."""
+            user=None, binary=None, nofile=None):
+        """Fresh CLI process transport.  nofile: limit on open file descriptors for the subject."""
         self.runs += 1
         e = dict(self.baseenv)
         if env:
@@ -211,6 +211,8 @@ class Env:
         if preload:
             e['LD_PRELOAD'] = SHIM_SO
         cmd = [binary or self.binary] + list(argv)
+        if nofile is not None:
+            cmd = ['prlimit', '--nofile=%d:%d' % (nofile, nofile)] + cmd
         if user is not None:
             cmd = ['setpriv', '--reuid', str(user), '--regid', str(user), '--clear-groups'] + cmd
         try:
